@@ -119,3 +119,11 @@ reg("C09",
     explanation="the C19 request space (every assignment of valid/absent/repeated/unparsable/invalid-text/auth-fault states with at most k deviations, all subsets) over endpoints with every mix of safe and non-safe path/query/header/body arguments and header/cookie auth; each datum embeds a position-specific taint token; SafeParams, Error::safe_params and safe cause messages are searched (raw, base64, lower-case); safe arguments must appear under their declared names; BearerToken Debug must be one constant",
     level_text="Exhaustive exploration of the request-state space with an information-flow (taint search) oracle on the real endpoint code, blocking and async.",
     level_note="Trusted: the taint tokens are distinctive strings no constant message contains; a leak through a transformation other than identity/base64/case-folding would be missed. Generated `safe` markers themselves are C08's business.")
+
+reg("C08",
+    packages=["cgorder"], bin="cgorder", level="model_checking", engine="E5 cgorder",
+    technique="explicit-state enumeration of type graphs x evaluation orders, each run through the real generator, with the generated `safe` markers compared against a greatest-fixed-point reference model and across orders",
+    design_ref="DESIGN.md §3 C08",
+    explanation="all graphs of 2 named types (alias / object with 0-2 members / union with 1-2 members over declared and undeclared leaves and references through optional/list/set/map) and of 3 types forming cycles, x every permutation of the endpoints that first touch them; hundreds of disjointly named copies are packed into one IR per generator run; markers are read back from the emitted sync and async server traits with syn; plus the argument-level rule (explicit safety, legacy marker, tag) over 14 argument types x 10 declarations",
+    level_text="Explicit-state model checking of the log-safety computation: every state (graph, order) of the bounded space is executed on the real generator and compared with a specification-level model (boolean greatest fixed point), with order-independence checked as a second oracle.",
+    level_note="Trusted: the fixed-point model (30 lines); syn to read the generated traits. Graphs with more than 3 types or more than 2 members per type are assumed to behave like compositions of the enumerated ones.")
